@@ -91,9 +91,16 @@ func init() {
 		if !isSym(args[0]) && !isSym(args[1]) {
 			return nil, false
 		}
+		// exact: fmod(x,y) from the IEEE remainder of the magnitudes
+		//   r = rem(|x|,|y|) in [-|y|/2, |y|/2];  r < 0 => r + |y| (exactly representable: it is fmod)
+		//   the result carries the sign of x; NaN / inf / zero cases follow fp.rem
 		b := i.path.B
-		i.path.Imprecise("math.Mod uninterpreted")
-		return mkScalar(b.App("uf_math_Mod", smt.FP64, i.term(args[0]), i.term(args[1])), types.Float64), true
+		x, y := i.term(args[0]), i.term(args[1])
+		ax, ay := b.FPUn(smt.OFPAbs, x), b.FPUn(smt.OFPAbs, y)
+		r := b.FPBin(smt.OFPRem, ax, ay)
+		r2 := b.Ite(b.FPBin(smt.OFPLt, r, b.FPC(0)), b.FPBin(smt.OFPAdd, r, ay), r)
+		neg := b.Or(b.FPBin(smt.OFPLt, x, b.FPC(0)), b.Eq(x, b.FPC(math.Copysign(0, -1))))
+		return mkScalar(b.Ite(neg, b.FPUn(smt.OFPNeg, r2), r2), types.Float64), true
 	}
 	ffiModels["math.Pow"] = func(i *interpreter, fr *frame, args []value) (value, bool) {
 		if !isSym(args[0]) && !isSym(args[1]) {
